@@ -168,6 +168,11 @@ def _constants_shape(ctx, q, step, cst):
     """constants = einsum('sw,s->sw', exp(-sqrt(dt)*einsum('wg,sg->sw', fields, mf_shifts_fp)),
                           exp(dt*h0_prop_fp))"""
     ok, why = False, "constants are not an einsum of the field phase with the per-spin constant"
+    if not (cst.op == "call" and array_fn(cst) == "einsum"):
+        # written with matmul / broadcasting instead of einsum: the subscript rule has nothing to read (the product
+        # then has to broadcast to (spin, walker) or jax raises at trace time); recorded, no claim
+        ctx.rep.note(f"{q}: per-walker constants are not built with einsum; the (spin, walker) subscript rule does not apply")
+        return
     if cst.op == "call" and array_fn(cst) == "einsum":
         _, pos, _ = call_parts(cst)
         if len(pos) == 3 and pos[0].op == "const":
@@ -216,7 +221,16 @@ def who_may_call(ctx, P, run_):
         elif e.kind == "store" and len(e.data[1]) >= 1 and e.data[1][0].op == "const" and \
                 e.data[1][0].args[0] in ("walkers", "norms") and run_.root_of(e.data[5]) is not None:
             owner = e.frame.fi.name if e.frame.fi is not None else ""
-            if owner not in allowed_store_frames:
+            inside = False
+            fr_ = e.frame
+            hops = 0
+            while fr_ is not None and hops < 12:      # helpers called from the step count as the step
+                if fr_.fi is not None and fr_.fi.name in allowed_store_frames:
+                    inside = True
+                    break
+                fr_ = getattr(fr_, "caller", None) or fr_.parent
+                hops += 1
+            if not inside:
                 bad_stores.append((e.line, owner, e.data[1][0].args[0]))
     ctx.ob("TS-4", f"{entry} x {P}: no reconfiguration / R-discarding QR on the free path", not bad_calls,
            f"norm-dropping calls: {bad_calls}" if bad_calls else "none reachable", p.func(entry))
